@@ -793,6 +793,46 @@ theorem unsupplied_param_defaults (user internal builtins : Vars) (sc : Scope) (
   simp only [hb]
   rfl
 
+/-- **exposes_iff_reads_from_context**: the names Jinja's scope analysis reports for a template (what
+    `register_all_params_in_track` registers) are exactly the names the template reads from the render context at a place
+    where neither an enclosing `for` / `macro` / `with` nor an earlier `set` / macro definition / import of the same
+    scope has bound them -/
+theorem exposes_iff_reads_from_context (tpl : List Stmt) (n : TrackTemplate.Str) :
+    n ∈ undeclaredOf tpl ↔ TemplateReads tpl n :=
+  ⟨readsContext_of_mem_undeclared _ _ tpl n, mem_undeclared_of_readsContext⟩
+
+/-- **param_accepted_iff_read**: a user-supplied parameter passes the unused-parameter rule iff some template of the track
+    (the assembled track file, an index body, …) reads that name from the render context, and the name is not one the
+    parsing environment knows as a global -/
+theorem param_accepted_iff_read (envGlobals : List TrackTemplate.Str) (templates : List (List Stmt))
+    (user : List TrackTemplate.Str) (p : TrackTemplate.Str) (hp : p ∈ user) :
+    p ∉ unusedParams envGlobals templates user ↔ ((∃ t ∈ templates, TemplateReads t p) ∧ p ∉ envGlobals) := by
+  simp only [unusedParams, List.mem_filter, hp, true_and, decide_eq_true_eq, Classical.not_not, trackDefinedParams,
+    List.mem_flatMap, registeredParams]
+  constructor
+  · rintro ⟨t, ht, hm, hg⟩
+    exact ⟨⟨t, ht, (exposes_iff_reads_from_context t p).mp hm⟩, hg⟩
+  · rintro ⟨⟨t, ht, hr⟩, hg⟩
+    exact ⟨t, ht, (exposes_iff_reads_from_context t p).mpr hr, hg⟩
+
+/-- a supplied parameter whose name the track only binds locally (`{% set %}`, loop variable, macro argument, …) or does
+    not mention at all is never silently accepted: `load`, fed with the accounting of the templates, returns an error —
+    a `TrackConfigError` unless the specification is already rejected for another reason -/
+theorem load_rejects_param_not_read_from_context (tbl : OpTable) (sel : Option TrackSpec.Str) (s : Spec)
+    (envGlobals : List TrackTemplate.Str) (templates : List (List Stmt)) (user : List TrackTemplate.Str)
+    (hr : ∃ p ∈ user, ¬ ∃ t ∈ templates, TemplateReads t p) :
+    ∃ e, load tbl sel user (trackDefinedParams envGlobals templates) s = .error e ∧
+      (e.cls = .trackConfig ∨ e = .version ∨ e.cls = .trackSyntax) ∧
+      (∀ t, VersionSupported s → schemaCheck s = none → loadSpec tbl sel s = .ok t → e.cls = .trackConfig) := by
+  obtain ⟨p, hp, hno⟩ := hr
+  apply load_rejects_unused_params
+  refine ⟨p, hp, ?_⟩
+  intro hmem
+  apply hno
+  simp only [trackDefinedParams, List.mem_flatMap, registeredParams, List.mem_filter] at hmem
+  obtain ⟨t, ht, hm, _⟩ := hmem
+  exact ⟨t, ht, (exposes_iff_reads_from_context t p).mp hm⟩
+
 end Template
 
 /-- the `type` declarations of the schema file the model relies on: every position the typed view `Spec` reads
@@ -1156,6 +1196,38 @@ example : renderRef [("build_flavor".toList, "x".toList)] [("build_flavor".toLis
 example : renderRef [("other".toList, "x".toList)] [("build_flavor".toList, "default".toList)] []
     .main "bulk_size".toList "5000".toList = "5000".toList :=
   unsupplied_param_defaults _ _ _ _ _ _ (by decide +kernel) (by decide +kernel) (by decide +kernel)
+
+
+/-- `{% set index_count = 3 %}` … `{{ index_count }}`, a loop over `i`, a macro with argument `n`, and
+    `{% set clients = clients | default(8) %}`: only `clients` and `bulk_size` are read from the context -/
+def tplLocals : List Stmt :=
+  [ .set "index_count".toList [], .read "index_count".toList,
+    .forLoop "i".toList ["index_count".toList] [.read "i".toList, .read "loop".toList, .read "bulk_size".toList],
+    .macro "name_of".toList ["n".toList] [.read "n".toList],
+    .set "clients".toList ["clients".toList], .read "clients".toList, .read "i".toList ]
+
+theorem undeclared_tplLocals : undeclaredOf tplLocals = ["bulk_size".toList, "clients".toList, "i".toList] := by
+  simp +decide [tplLocals, undeclaredOf, undeclared, storesOf, bindsAfter, free, loopName]
+
+/-- a nested scope is resolved against the complete symbol table of its enclosing scope: `{% with … %}{{ i }}{% endwith %}`
+    followed by `{% set i = … %}` does not read `i` from the context (Jinja leaves it undefined there) -/
+example : undeclaredOf [.withBlock "n".toList [] [.read "i".toList], .set "i".toList ["shards".toList], .read "i".toList] =
+    ["shards".toList] := by
+  simp +decide [undeclaredOf, undeclared, storesOf, bindsAfter, free]
+/-- … whereas at the scope's own level a load before the binding is a context read -/
+example : undeclaredOf [.read "i".toList, .set "i".toList []] = ["i".toList] := by
+  simp +decide [undeclaredOf, undeclared, storesOf, bindsAfter, free]
+example : unusedParams ["range".toList] [tplLocals] ["index_count".toList, "bulk_size".toList, "n".toList, "clients".toList] =
+    ["index_count".toList, "n".toList] := by
+  simp +decide [unusedParams, trackDefinedParams, registeredParams, undeclared_tplLocals]
+example : ¬ ∃ t ∈ [tplLocals], TemplateReads t "index_count".toList := by
+  rintro ⟨t, ht, hr⟩
+  simp only [List.mem_singleton] at ht
+  subst ht
+  have := (exposes_iff_reads_from_context tplLocals "index_count".toList).mpr hr
+  rw [undeclared_tplLocals] at this
+  revert this
+  decide +kernel
 
 end TemplateExamples
 
